@@ -306,6 +306,22 @@ theorem any_eq_stops_of_all {α} (l : List α) (p q : α → Bool) (h : ∀ a, p
     simp only [G.stops, stop, List.any_eq_true, iff_true]
     exact ⟨a, ha, by rw [h a]; simpa using hn⟩
 
+theorem gen_Gauss_Legendre_func_row_eq (lens : List Nat) :
+    (lens.any fun l => gen_Gauss_Legendre_func_row l) = (gaussLegendreFuncGuard lens).stops := by
+  unfold gaussLegendreFuncGuard
+  apply any_eq_stops_of_all
+  intro a; unfold gen_Gauss_Legendre_func_row; rw [Bool.eq_iff_iff]; simp <;> gen_arith
+theorem gen_Gauss_Legendre_rows_eq (n : Nat) (lens : List Nat) :
+    (gen_Gauss_Legendre_sizes n lens.length || lens.any fun l => gen_Gauss_Legendre_row l) = (gaussLegendreRowsGuard n lens).stops := by
+  unfold gaussLegendreRowsGuard gen_Gauss_Legendre_sizes
+  by_cases h : n ≠ lens.length
+  · simp [h, G.stops, stop]
+  · have e : (lens.any fun l => gen_Gauss_Legendre_row l) = (if lens.all (fun l => decide (l = 2)) then pass else stop).stops := by
+      apply any_eq_stops_of_all
+      intro a; unfold gen_Gauss_Legendre_row; rw [Bool.eq_iff_iff]; simp <;> gen_arith
+    push Not at h
+    rw [if_neg (by simpa using h), e]
+    simp [h]
 theorem gen_Transpose_Lists_eq (l0 : Nat) (rest : List Nat) :
     (rest.any fun l => gen_Transpose_Lists_row l l0) = (transposeGuard l0 rest).stops := by
   unfold transposeGuard
@@ -323,5 +339,151 @@ theorem gen_Export_Table_eq (lens : List Nat) (nd : Nat) :
   intro a; unfold gen_Export_Table_row; rw [Bool.eq_iff_iff]; simp <;> gen_arith
 theorem gen_Import_Table_eq (cols nd : Nat) : gen_Import_Table_columns nd cols = (importTableGuard true cols nd).stops := by
   unfold gen_Import_Table_columns importTableGuard; gen_eq
+
+/-! ## Early exits and early returns of every anchored function: the regenerated lists equal the committed expectation.
+    An additional (or removed, or re-ordered, or changed) early `if( … ) exit/return` breaks the obligation; the test of a
+    table entry appears as `@gen_<Entry>` and is pinned by its `gen_<Entry>_eq` theorem, so re-spelling it is harmless. -/
+theorem gen_Vector_index_early_eq : gen_Vector_index_early =
+    ["@gen_Vector_index"] := by decide
+theorem gen_Vector_index_const_early_eq : gen_Vector_index_const_early =
+    ["@gen_Vector_index_const"] := by decide
+theorem gen_Vector_Dot_early_eq : gen_Vector_Dot_early =
+    ["@gen_Vector_Dot"] := by decide
+theorem gen_Vector_Cross_early_eq : gen_Vector_Cross_early =
+    ["@gen_Vector_Cross"] := by decide
+theorem gen_Vector_plus_early_eq : gen_Vector_plus_early =
+    ["@gen_Vector_plus"] := by decide
+theorem gen_Vector_minus_early_eq : gen_Vector_minus_early =
+    ["@gen_Vector_minus"] := by decide
+theorem gen_Vector_pluseq_early_eq : gen_Vector_pluseq_early =
+    ["@gen_Vector_pluseq"] := by decide
+theorem gen_Vector_minuseq_early_eq : gen_Vector_minuseq_early =
+    ["@gen_Vector_minuseq"] := by decide
+theorem gen_Matrix_entries_row_early_eq : gen_Matrix_entries_row_early =
+    [] := by decide
+theorem gen_Matrix_Delete_Row_early_eq : gen_Matrix_Delete_Row_early =
+    ["@gen_Matrix_Delete_Row"] := by decide
+theorem gen_Matrix_Delete_Column_early_eq : gen_Matrix_Delete_Column_early =
+    ["@gen_Matrix_Delete_Column"] := by decide
+theorem gen_Matrix_Return_Row_early_eq : gen_Matrix_Return_Row_early =
+    ["@gen_Matrix_Return_Row"] := by decide
+theorem gen_Matrix_Return_Column_early_eq : gen_Matrix_Return_Column_early =
+    ["@gen_Matrix_Return_Column"] := by decide
+theorem gen_Matrix_Plus_early_eq : gen_Matrix_Plus_early =
+    ["@gen_Matrix_Plus"] := by decide
+theorem gen_Matrix_Minus_early_eq : gen_Matrix_Minus_early =
+    ["@gen_Matrix_Minus"] := by decide
+theorem gen_Matrix_pluseq_early_eq : gen_Matrix_pluseq_early =
+    ["@gen_Matrix_pluseq"] := by decide
+theorem gen_Matrix_minuseq_early_eq : gen_Matrix_minuseq_early =
+    ["@gen_Matrix_minuseq"] := by decide
+theorem gen_Matrix_Product_early_eq : gen_Matrix_Product_early =
+    ["@gen_Matrix_Product"] := by decide
+theorem gen_Matrix_Product_Vector_early_eq : gen_Matrix_Product_Vector_early =
+    ["@gen_Matrix_Product_Vector"] := by decide
+theorem gen_Vector_times_Matrix_early_eq : gen_Vector_times_Matrix_early =
+    ["@gen_Vector_times_Matrix"] := by decide
+theorem gen_Matrix_Trace_early_eq : gen_Matrix_Trace_early =
+    ["@gen_Matrix_Trace"] := by decide
+theorem gen_Matrix_Determinant_early_eq : gen_Matrix_Determinant_early =
+    ["@gen_Matrix_Determinant", "1 == rows", "2 == rows"] := by decide
+theorem gen_Matrix_Inverse_square_early_eq : gen_Matrix_Inverse_square_early =
+    ["@gen_Matrix_Inverse_square", "@gen_Matrix_Inverse_singular"] := by decide
+theorem gen_Matrix_index_early_eq : gen_Matrix_index_early =
+    ["@gen_Matrix_index"] := by decide
+theorem gen_Matrix_index_const_early_eq : gen_Matrix_index_const_early =
+    ["@gen_Matrix_index_const"] := by decide
+theorem gen_Rotation_dim2_early_eq : gen_Rotation_dim2_early =
+    ["@gen_Rotation_dim2", "@gen_Rotation_dim3", "else"] := by decide
+theorem gen_Interpolation_lengths_early_eq : gen_Interpolation_lengths_early =
+    ["@gen_Interpolation_lengths", "@gen_Interpolation_short"] := by decide
+theorem gen_Interpolation_table_row_early_eq : gen_Interpolation_table_row_early =
+    [] := by decide
+theorem gen_Locate_outside_early_eq : gen_Locate_outside_early =
+    ["@gen_Locate_outside"] := by decide
+theorem gen_Local_Minimum_order_early_eq : gen_Local_Minimum_order_early =
+    ["@gen_Local_Minimum_order"] := by decide
+theorem gen_Local_Maximum_order_early_eq : gen_Local_Maximum_order_early =
+    ["@gen_Local_Maximum_order"] := by decide
+theorem gen_Gauss_Legendre_sizes_early_eq : gen_Gauss_Legendre_sizes_early =
+    ["@gen_Gauss_Legendre_sizes"] := by decide
+theorem gen_Gauss_Legendre_func_row_early_eq : gen_Gauss_Legendre_func_row_early =
+    [] := by decide
+theorem gen_Factorial_early_eq : gen_Factorial_early =
+    ["@gen_Factorial", "n < FactorialList.size()"] := by decide
+theorem gen_Binomial_Coefficient_early_eq : gen_Binomial_Coefficient_early =
+    ["@gen_Binomial_Coefficient", "n < k", "170 < n"] := by decide
+theorem gen_GammaLn_early_eq : gen_GammaLn_early =
+    ["@gen_GammaLn"] := by decide
+theorem gen_Gamma_early_eq : gen_Gamma_early =
+    ["@gen_Gamma"] := by decide
+theorem gen_GammaQ_early_eq : gen_GammaQ_early =
+    ["@gen_GammaQ", "0 == x"] := by decide
+theorem gen_Inv_GammaP_early_eq : gen_Inv_GammaP_early =
+    ["@gen_Inv_GammaP", "@gen_Inv_GammaP_probability", "1 <= p", "p <= 0"] := by decide
+theorem gen_Round_digits_early_eq : gen_Round_digits_early =
+    ["@gen_Round_digits", "0 == N"] := by decide
+theorem gen_Inv_Erf_saturated_early_eq : gen_Inv_Erf_saturated_early =
+    ["@gen_Inv_Erf_saturated", "@gen_Inv_Erf_outside"] := by decide
+theorem gen_PMF_Binomial_early_eq : gen_PMF_Binomial_early =
+    ["@gen_PMF_Binomial"] := by decide
+theorem gen_CDF_Binomial_early_eq : gen_CDF_Binomial_early =
+    ["@gen_CDF_Binomial", "trials <= x"] := by decide
+theorem gen_PMF_Poisson_early_eq : gen_PMF_Poisson_early =
+    ["@gen_PMF_Poisson", "0 == events && 0 == expected_events", "0 < events && 0 == expected_events"] := by decide
+theorem gen_CDF_Poisson_early_eq : gen_CDF_Poisson_early =
+    ["@gen_CDF_Poisson", "0 <= gq"] := by decide
+theorem gen_Inv_CDF_Poisson_early_eq : gen_Inv_CDF_Poisson_early =
+    ["@gen_Inv_CDF_Poisson", "0 == observed_events"] := by decide
+theorem gen_PDF_Exponential_early_eq : gen_PDF_Exponential_early =
+    ["@gen_PDF_Exponential", "x < 0"] := by decide
+theorem gen_CDF_Exponential_early_eq : gen_CDF_Exponential_early =
+    ["@gen_CDF_Exponential", "x < 0"] := by decide
+theorem gen_PDF_Maxwell_Boltzmann_early_eq : gen_PDF_Maxwell_Boltzmann_early =
+    ["@gen_PDF_Maxwell_Boltzmann", "x < 0"] := by decide
+theorem gen_CDF_Maxwell_Boltzmann_early_eq : gen_CDF_Maxwell_Boltzmann_early =
+    ["@gen_CDF_Maxwell_Boltzmann", "x < 0", "t < 1/10"] := by decide
+theorem gen_PDF_Uniform_early_eq : gen_PDF_Uniform_early =
+    ["@gen_PDF_Uniform", "x < x_min || x_max < x"] := by decide
+theorem gen_CDF_Uniform_early_eq : gen_CDF_Uniform_early =
+    ["@gen_CDF_Uniform", "x < x_min", "x_max < x"] := by decide
+theorem gen_PDF_Gauss_early_eq : gen_PDF_Gauss_early =
+    ["@gen_PDF_Gauss"] := by decide
+theorem gen_CDF_Gauss_early_eq : gen_CDF_Gauss_early =
+    ["@gen_CDF_Gauss"] := by decide
+theorem gen_Quantile_Gauss_early_eq : gen_Quantile_Gauss_early =
+    ["@gen_Quantile_Gauss"] := by decide
+theorem gen_PDF_Gauss_2D_early_eq : gen_PDF_Gauss_2D_early =
+    ["@gen_PDF_Gauss_2D"] := by decide
+theorem gen_PDF_Chi_Square_early_eq : gen_PDF_Chi_Square_early =
+    ["@gen_PDF_Chi_Square", "dof < 1/1000000 || x <= 0"] := by decide
+theorem gen_CDF_Chi_Square_early_eq : gen_CDF_Chi_Square_early =
+    ["@gen_CDF_Chi_Square", "x < 0", "fabs(dof) < 1/1000000"] := by decide
+theorem gen_Log_Likelihood_Poisson_early_eq : gen_Log_Likelihood_Poisson_early =
+    ["@gen_Log_Likelihood_Poisson", "0 == N_observed"] := by decide
+theorem gen_Sample_Uniform_early_eq : gen_Sample_Uniform_early =
+    ["@gen_Sample_Uniform"] := by decide
+theorem gen_Sample_Gauss_early_eq : gen_Sample_Gauss_early =
+    ["@gen_Sample_Gauss"] := by decide
+theorem gen_Sample_Poisson_early_eq : gen_Sample_Poisson_early =
+    ["@gen_Sample_Poisson"] := by decide
+theorem gen_Inv_GammaQ_probability_early_eq : gen_Inv_GammaQ_probability_early =
+    ["@gen_Inv_GammaQ_probability"] := by decide
+theorem gen_Locate_Closest_Location_empty_early_eq : gen_Locate_Closest_Location_empty_early =
+    ["@gen_Locate_Closest_Location_empty", "false == std::is_sorted(std::begin(sorted_list), std::end(sorted_list))", "it == sorted_list.end()", "0 == index", "index == sorted_list.size()", "diff1 < diff2"] := by decide
+theorem gen_Log_Likelihood_Poisson_Binned_early_eq : gen_Log_Likelihood_Poisson_Binned_early =
+    ["@gen_Log_Likelihood_Poisson_Binned"] := by decide
+theorem gen_Sample_Metropolis_unbounded_early_eq : gen_Sample_Metropolis_unbounded_early =
+    ["else"] := by decide
+theorem gen_Sample_Metropolis_2D_unbounded_early_eq : gen_Sample_Metropolis_2D_unbounded_early =
+    ["else"] := by decide
+theorem gen_Transpose_Lists_row_early_eq : gen_Transpose_Lists_row_early =
+    ["lists.empty()"] := by decide
+theorem gen_In_Units_row_early_eq : gen_In_Units_row_early =
+    [] := by decide
+theorem gen_Export_Table_row_early_eq : gen_Export_Table_row_early =
+    [] := by decide
+theorem gen_Import_Table_columns_early_eq : gen_Import_Table_columns_early =
+    ["inputfile.good()", "else"] := by decide
 
 end Lp.C10
